@@ -129,6 +129,19 @@ def directed():
     S.append(('timed-out-multikey-then-reblock', [('open', 1), ('open', 2), ('send', 1, B('BLPOP', 'k1', 'k2', '0.1')), ('pump', 1, 1500), ('send', 1, B('BRPOP', 'k3', 0)), ('sync',),
                                                   ('call', 2, B('RPUSH', 'k2', 'b')), ('sync',), ('call', 2, B('RPUSH', 'k1', 'a')), ('sync',), ('pump', 1, 200),
                                                   ('call', 2, B('LRANGE', 'k1', 0, -1)), ('call', 2, B('LRANGE', 'k2', 0, -1)), ('call', 2, B('RPUSH', 'k3', 'c')), ('sync',), ('pump', 1, 500)]))
+    # one client keeps waiting while ANOTHER client's multi-key call times out (or is served, or disconnects): whatever
+    # bookkeeping the leaver's several registrations undo must not take the stayer's along
+    for how in ('timeout', 'served', 'close'):
+        for nkeys in (2, 3):
+            ks = ['m1', 'm2', 'm3'][:nkeys]
+            leave = {'timeout': [('pump', 3, 900)], 'served': [('call', 2, B('RPUSH', ks[-1], 'for-leaver')), ('sync',), ('pump', 3, 500)],
+                     'close': [('close', 3)]}[how]
+            S.append(('stayer-beside-multikey-%s-%d' % (how, nkeys),
+                      [('open', 1), ('open', 2), ('open', 3), ('send', 1, B('BLPOP', 'x', 0)), ('sync',),
+                       ('send', 3, B('BRPOP', *ks, '0.2' if how == 'timeout' else 0)), ('sync',)] + leave +
+                      [('sync',), ('call', 2, B('RPUSH', 'x', 'job')), ('sync',), ('pump', 1, 700), ('call', 2, B('LRANGE', 'x', 0, -1)),
+                       ('send', 1, B('BLPOP', 'x', ks[0], 0)), ('sync',), ('call', 2, B('LPUSH', ks[0], 'again')), ('sync',), ('pump', 1, 700),
+                       ('call', 2, B('LRANGE', ks[0], 0, -1))]))
     # a blocked client whose connection another client ends with CLIENT KILL: its registrations end with it — a later push
     # stays in the list (or goes to the next waiter), nothing is left in the registry
     S.append(('blocked-client-killed', [('open', 1), ('open', 2), ('idof', 1), ('send', 1, B('BLPOP', 'q', 'r', 0)), ('sync',), ('kill', 2, 1), ('sync',),
